@@ -30,6 +30,12 @@ C->S : (main) conversions built from option classes: the source dataset is
        exit 0 still means everything readable.  The function API
        convert_chunks(src, dst, copy_info=True) is also called several times
        in ONE interpreter (unsharded and sharded sources, both orders).
+       Environment class "source fault" (one source chunk cannot be read:
+       transient 503 of the server, removed / truncated chunk file): exit 0 is
+       the violation.  --copy-info into a destination that already holds a
+       conversion made with another info: exit 0 => decodes by its own info to
+       the source, a refusal leaves it as it was
+       (RefusedCopyChangedDestination).  Sources with entirely zero chunks.
        Remote sources are
        served by a loopback server, plain and sharded multi-scale (scales that
        share shard numbers and chunk identifiers).
@@ -83,7 +89,12 @@ def conversion_classes(ctx):
                 "obstruct": None,   # environment: "first" (one chunk / shard file path of the first
                                     # scale is a directory) or "last" (the last scale's directory)
                 "per_scale": None,  # destination: every scale ITS OWN sharding parameters / encodings
-                "link": None}       # conversions run through the function API in one interpreter
+                "link": None,       # conversions run through the function API in one interpreter
+                "zero": None,       # "slab": chunk-aligned zero background; "all": all-zero volume
+                "src_fault": None,  # environment: "remote503" (the server fails the first chunk request
+                                    # once), "remove" / "truncate" (one source chunk file)
+                "prior": None}      # the destination already holds a conversion with ANOTHER info:
+                                    # [type, encoding, data type or "-", sharding or "keep"]
         base.update(kw)
         out.append(base)
 
@@ -268,6 +279,38 @@ def conversion_classes(ctx):
     for n, order in enumerate((("nosh", "s110"), ("s110", "nosh"), ("s110", "s110"))):
         for sh in order:
             add(src_dtype=["uint8", "uint16", "uint8"][n], src_sh=sh, copy="copy", iso=True, link="inproc%d" % n)
+    # 20. sources with ENTIRELY zero chunks (chunk-aligned background slab, all-zero volume): every
+    #     chunk of the destination must exist and decode to the source voxels all the same
+    add(src_dtype="uint8", zero="slab")
+    add(src_dtype="uint16", zero="slab", dst_dtype="uint32", copy="keep", repeat=True)
+    add(src_dtype="uint8", zero="slab", copy="copy")
+    add(src_dtype="uint8", zero="slab", dst_sh="s110", iso=True)
+    add(src_dtype="uint32", zero="slab", src_type="segmentation", dst_type="segmentation",
+        dst_enc="compressed_segmentation", kind="labels", method="majority")
+    add(src_dtype="uint8", zero="slab", src_sh="s110", iso=True, remote=True, dst_sh="nosh")
+    add(src_dtype="uint8", zero="all", stats=True)
+    add(src_dtype="uint16", zero="all", dst_sh="s110", iso=True, copy="keep")
+    add(src_dtype="uint8", zero="slab", shape=[40, 24, 20], voxel=[1.0, 1.0, 1.0], tgt=8, stats=True)
+    # 21. ENVIRONMENT "source fault": one chunk of the source cannot be read while the conversion
+    #     runs (transient 503 of the remote server; a removed / truncated chunk file).  "Decodes to
+    #     the same voxels as the source" cannot hold then: exit 0 is the violation, non-zero is fine
+    add(src_dtype="uint8", remote=True, src_fault="remote503")
+    add(src_dtype="uint16", remote=True, src_fault="remote503", copy="copy")
+    add(src_dtype="uint8", remote=True, src_fault="remote503", dst_sh="s110", iso=True, dst_dtype="uint16")
+    add(src_dtype="uint8", src_fault="remove")
+    add(src_dtype="uint16", src_fault="remove", copy="copy")
+    add(src_dtype="uint8", src_fault="truncate", dst_sh="s110", iso=True)
+    add(src_dtype="uint32", src_fault="truncate", src_type="segmentation", dst_type="segmentation",
+        src_enc="compressed_segmentation", dst_enc="raw", kind="labels", method="stride")
+    # 22. --copy-info into a destination that already holds a conversion made with ANOTHER info
+    #     (encoding / data type / sharding): exit 0 => the destination decodes, by its own info, to
+    #     the source; a refusal must leave the earlier destination as it was
+    add(src_dtype="uint8", copy="copy", src_type="segmentation", method="majority",
+        prior=["segmentation", "compressed_segmentation", "-", "keep"])
+    add(src_dtype="uint8", copy="copy", prior=["image", "raw", "uint16", "keep"])
+    add(src_dtype="uint16", copy="copy", iso=True, prior=["image", "raw", "-", "s110"])
+    add(src_dtype="uint32", copy="copy", src_type="segmentation", src_enc="compressed_segmentation",
+        kind="blobs", method="stride", prior=["segmentation", "raw", "uint64", "keep"])
     return out
 
 
@@ -300,6 +343,10 @@ def prog_of(rng, k):
     vol["nall"] = lv
     if k["rgb"]:
         vol["rgb"] = True
+    if k["zero"] == "slab":
+        vol["zero_slab"] = 128 if max(shape[:3]) >= 140 else 16
+    if k["zero"] == "all":
+        vol["allzero"] = True
     if k["slices"]:
         # no --generate-info for slices: hand-written info_fullres.json, sharding by editing the info
         cmds = [C("HandInfo", "A", sh="nosh"),
@@ -321,7 +368,15 @@ def prog_of(rng, k):
             cmds.append(C("Edit", "B", type=k["dst_dtype"], sh=k["dst_sh"], enc=k["dst_bs"], m=k["dst_cs"]))
     if k["obstruct"]:
         cmds.append(C("Obstruct", "B", m=k["obstruct"]))
-    conv = C("Convert", "B", src="A", copy=k["copy"])
+    if k["src_fault"] in ("remove", "truncate"):
+        cmds.append(C("Damage", "A", m=k["src_fault"]))
+    if k["prior"]:
+        typ, enc, dt, sh = k["prior"]
+        cmds.append(C("GenScales", "B", src="A", type=typ, enc=enc, max="all"))
+        if dt != "-" or sh != "keep":
+            cmds.append(C("Edit", "B", type=dt, sh=sh))
+        cmds.append(C("Convert", "B", src="A", copy="keep"))
+    conv = C("Convert", "B", src="A", copy=k["copy"], m="srcfault" if k["src_fault"] == "remote503" else "-")
     cmds.append(conv)
     if k["repeat"]:
         cmds.append(dict(conv))
